@@ -80,17 +80,23 @@ def tree_hash():
     return _tree_hash
 
 # ----------------------------------------------------------------------------- build steps
+_ll2c_lock = threading.Lock()
 def ensure_ll2c():
+    with _ll2c_lock:
+        return _ensure_ll2c()
+
+def _ensure_ll2c():
     out = os.path.join(VERIF, "build", "ll2c")
     src = os.path.join(VERIF, "tools", "ll2c.cpp")
     if os.path.exists(out) and os.path.getmtime(out) >= os.path.getmtime(src):
         return out
     os.makedirs(os.path.dirname(out), exist_ok=True)
     fl = subprocess.check_output(["llvm-config-14", "--cxxflags", "--ldflags", "--libs", "core", "irreader", "support"], text=True).split()
-    r = run([CLANG, "-O1", src] + fl + ["-o", out + ".tmp"])
+    tmp = out + ".tmp%d" % os.getpid()
+    r = run([CLANG, "-O1", src] + fl + ["-o", tmp])
     if r.returncode != 0:
         log(r.stderr); raise SystemExit(2)
-    os.replace(out + ".tmp", out)
+    os.replace(tmp, out)
     return out
 
 class ToolError(Exception):
@@ -115,6 +121,55 @@ def unit_bc(unit, cachedir, inc):
 _build_lock = threading.Lock()
 _unit_locks = {}
 
+_pregen_lock = threading.Lock()
+
+def run_pregen(job, cachedir, cfg):
+    """optional job key pregen=[generator sources relative to /verif]: each generator is compiled NATIVELY (g++, no sanitizers)
+    against the repository's current sources (job key pregen_units, default: the job's units) and run with one argument, the
+    output directory <cfg>/gen, which is on the include path of both the symbolic and the native harness build
+    (harnesses write #include "gen/<file>").  cachedir is keyed by tree_hash(), so the step re-runs whenever /repo/src changes;
+    a stamp keyed by the generator source re-runs it when the generator changes.  Nothing is written outside WORK.
+    -> string that becomes part of the job's cache key"""
+    gens = job.get("pregen") or []
+    if not gens:
+        return ""
+    keypart = ""
+    outdir = os.path.join(cfg, "gen")
+    units = job.get("pregen_units", job.get("units", []))
+    with _pregen_lock:
+        os.makedirs(outdir, exist_ok=True)
+        for g in gens:
+            gsrc = os.path.join(VERIF, g)
+            gkey = sha(open(gsrc, "rb").read().decode() + repr(units))
+            keypart += gkey
+            stamp = os.path.join(outdir, os.path.basename(g) + ".stamp")
+            if os.path.exists(stamp) and open(stamp).read() == gkey:
+                continue
+            gd = os.path.join(cachedir, "pregen-" + gkey)
+            os.makedirs(gd, exist_ok=True)
+            inc = ["-I" + SRC, "-I" + cfg, "-I" + os.path.join(VERIF, "harness")]
+            fl = ["-std=c++17", "-O1", "-DNDEBUG", "-DOVM_VERIF", "-w"]
+            srcs = [os.path.join(SRC, "OpenVolumeMesh", u) for u in units] + [gsrc]
+            def cc(s_):
+                o = os.path.join(gd, sha(s_) + ".o")
+                if not os.path.exists(o):
+                    r = run(["g++"] + fl + inc + ["-c", s_, "-o", o + ".tmp.o"], cwd=os.path.dirname(s_))
+                    if r.returncode != 0:
+                        raise ToolError("pregen compile failed: " + r.stderr[-3000:])
+                    os.replace(o + ".tmp.o", o)
+                return o
+            with cf.ThreadPoolExecutor(max_workers=8) as ex:
+                objs = list(ex.map(cc, srcs))
+            exe = os.path.join(gd, "gen")
+            r = run(["g++"] + objs + ["-o", exe])
+            if r.returncode != 0:
+                raise ToolError("pregen link failed: " + r.stderr[-3000:])
+            r = run([exe, outdir])
+            if r.returncode != 0:
+                raise ToolError("pregen run failed (%s): %s" % (g, (r.stdout + r.stderr)[-3000:]))
+            open(stamp, "w").write(gkey)
+    return keypart
+
 def build_job(job, tier):
     """-> path of the goto binary (without runtime) for this job; also .c and meta"""
     th = tree_hash()
@@ -125,7 +180,8 @@ def build_job(job, tier):
     hsrc = os.path.join(VERIF, "harness", job["harness"])
     defs = ["-D" + d for d in job.get("defines", [])]
     key = sha(open(hsrc, "rb").read().decode() + repr(sorted(job.get("defines", []))) + repr(job.get("units")) +
-              repr(job.get("eh")) + repr(job.get("entries")) + repr(job.get("ll2c_flags")) + repr(job.get("models", True)))
+              repr(job.get("eh")) + repr(job.get("entries")) + repr(job.get("ll2c_flags")) + repr(job.get("models", True)) +
+              (repr(job.get("extra_models")) if job.get("extra_models") else "") + run_pregen(job, cachedir, cfg))
     jd = os.path.join(cachedir, "job-%s-%s" % (job["name"], key))
     gb = os.path.join(jd, "job.gb")
     if os.path.exists(gb):
@@ -144,6 +200,15 @@ def build_job(job, tier):
             mo = os.path.join(cachedir, "models.bc")
             if not os.path.exists(mo):
                 compile_bc(os.path.join(VERIF, "models", "models.cpp"), mo + ".tmp.bc", inc)
+                os.replace(mo + ".tmp.bc", mo)
+        bcs.append(mo)
+    for em in job.get("extra_models") or []:   # optional job key: further model files under /verif/models (e.g. stream_model.cpp)
+        with _build_lock:
+            lk = _unit_locks.setdefault("@models/" + em, threading.Lock())
+        with lk:
+            mo = os.path.join(cachedir, "models-" + em.replace("/", "__") + ".bc")
+            if not os.path.exists(mo):
+                compile_bc(os.path.join(VERIF, "models", em), mo + ".tmp.bc", inc)
                 os.replace(mo + ".tmp.bc", mo)
         bcs.append(mo)
     hbc = compile_bc(hsrc, os.path.join(jd, "harness.bc"), inc, defs)
@@ -304,7 +369,8 @@ def build_native(job, tier):
     cachedir = os.path.join(WORK, "cache-" + th)
     cfg = gen_config(os.path.join(cachedir, "cfg"))
     hsrc = os.path.join(VERIF, "harness", job["harness"])
-    key = sha(open(hsrc, "rb").read().decode() + repr(sorted(job.get("defines", []))) + repr(job.get("units")))
+    os.makedirs(cachedir, exist_ok=True)
+    key = sha(open(hsrc, "rb").read().decode() + repr(sorted(job.get("defines", []))) + repr(job.get("units")) + run_pregen(job, cachedir, cfg))
     nd = os.path.join(cachedir, "native-%s-%s" % (job["name"], key))
     exe = os.path.join(nd, "replay")
     with _native_lock:
